@@ -22,7 +22,7 @@ TRUSTED = [
     "float -> integer transfer: every coordinate is multiplied by one common power of two (order-embedding, exact)",
 ]
 ASSUMPTIONS = ["NaN/inf inputs are rejected by the code (asarray_chkfinite) and are outside the property"]
-RULE = ("lattice: every multiset of <=k points on {0..3}^m (exhaustive); floats/ranked/column: generated from the seed. "
+RULE = ("lattice: every multiset of <=k points on {0..3}^m (exhaustive; quick: k=4 for m<=2, k=3 for m=3; thorough: k=5 for m<=2, k=4 for m=3 plus 150000 sampled 5-point multisets); floats/ranked/column: generated from the seed. "
         "non-trivial = the set has at least one dominated point or one duplicate")
 
 F_NDS, F_OKNDS, F_RANKED, F_OKRANKED, F_REQ, F_FRONTS = 1101, 1102, 1103, 1104, 1105, 1106
@@ -240,7 +240,14 @@ def gen_lattice(maxpts):
         for m in (1, 2, 3):
             grid = list(itertools.product(range(4), repeat=m))
             for n in range(1, maxp + 1):
-                if m == 3 and n > (4 if tier == "thorough" else 3) and tier != "thorough":
+                if m == 3 and n > 3 and tier != "thorough":
+                    continue
+                if m == 3 and n > 4:
+                    # 10.4 million multisets of 5 points on {0..3}^3: a seed-determined sample (the full enumeration needs tens of
+                    # GB in the runner, which materialises the case list); exhaustive up to 4 points
+                    for _ in range(150000):
+                        pts = [list(rng.choice(grid)) for _ in range(n)]
+                        yield dict(pts=pts, oned=False, sort=rng.random() < 0.3)
                     continue
                 for combo in itertools.combinations_with_replacement(grid, n):
                     pts = [list(p) for p in combo]
